@@ -8,5 +8,5 @@ export CARGO_NET_OFFLINE=true
 sh oracle/build.sh
 mkdir -p .cache
 cp /repo/Cargo.lock harness/Cargo.lock
-( cd harness && CARGO_TARGET_DIR=/verif/.cache/target RUSTFLAGS="--cfg flipdot_verif" cargo build --offline --quiet )
+( cd harness && CARGO_TARGET_DIR="$PWD/../.cache/target" RUSTFLAGS="--cfg flipdot_verif" cargo build --offline --quiet )
 echo "setup ok"
